@@ -93,6 +93,11 @@ def sx_call(f, *a, **k):
             key = mod + ':' + q
             COUNTS[key] = COUNTS.get(key, 0) + 1
     s = getattr(f, '__self__', None)
+    if s.__class__ is bytes and getattr(f, '__name__', '') == 'join' and len(a) == 1:
+        parts = list(a[0])              # a generator may yield symbolic bytes
+        if any(isinstance(p, SymBytes) for p in parts):
+            return join_bytes(s, parts)
+        return s.join(parts)
     if f is str and len(a) == 1 and not k and getattr(type(a[0]), '__module__', '').startswith('nptdms'):
         r = type(a[0]).__str__(a[0])          # str() insists on a real str; the object may render symbolically
         return r if isinstance(r, SymStr) else str(r)
